@@ -135,6 +135,8 @@ enum KeyTy {
     U8,
     U16,
     Pair,
+    /// 24-bit key (a width that is not a power of two)
+    Triple,
 }
 
 fn key_ty(k: KeyTy) -> Ty {
@@ -142,6 +144,7 @@ fn key_ty(k: KeyTy) -> Ty {
         KeyTy::U8 => Ty::u8(),
         KeyTy::U16 => Ty::Int(IntTy::U16),
         KeyTy::Pair => Ty::arr(Ty::u8(), 2),
+        KeyTy::Triple => Ty::arr(Ty::u8(), 3),
     }
 }
 
@@ -150,7 +153,13 @@ fn key_domain(k: KeyTy) -> Vec<Val> {
         KeyTy::U8 => [0u8, 1, 2, 3, 5, 128, 254, 255].iter().map(|v| Val::u8(*v)).collect(),
         KeyTy::U16 => [0u16, 1, 255, 256, 257, 32768, 65534, 65535].iter().map(|v| Val::Int(*v as i128, IntTy::U16)).collect(),
         KeyTy::Pair => [(0u8, 0u8), (0, 1), (0, 255), (1, 0), (1, 1), (255, 0), (255, 254), (255, 255)].iter().map(|(a, b)| Val::Arr(vec![Val::u8(*a), Val::u8(*b)])).collect(),
+        KeyTy::Triple => triple_keys(&[0, 1, 255, 256, 65535, 65536, (1 << 24) - 2, (1 << 24) - 1]),
     }
+}
+
+/// 24-bit keys as [u8; 3], most significant byte first (the given numbers must be ascending)
+fn triple_keys(vs: &[u32]) -> Vec<Val> {
+    vs.iter().map(|v| Val::Arr(vec![Val::u8((v >> 16) as u8), Val::u8((v >> 8) as u8), Val::u8(*v as u8)])).collect()
 }
 
 fn key_zero(k: KeyTy) -> Expr {
@@ -158,6 +167,7 @@ fn key_zero(k: KeyTy) -> Expr {
         KeyTy::U8 => lit_u8(0),
         KeyTy::U16 => lit(0, IntTy::U16),
         KeyTy::Pair => arr(vec![lit_u8(0), lit_u8(0)]),
+        KeyTy::Triple => arr(vec![lit_u8(0), lit_u8(0), lit_u8(0)]),
     }
 }
 
@@ -488,6 +498,17 @@ pub fn run(tier: Tier) -> i32 {
     for (n, m) in [(2usize, 2usize), (1, 2), (2, 1)] {
         jobs.push(join_loop_job_dom(n, m, KeyTy::U8, Payload::U8U8, (0..8).map(|k| Val::u8(1 << k)).chain([Val::u8(0), Val::u8(3), Val::u8(255)]).collect()));
         jobs.push(join_loop_job_dom(n, m, KeyTy::U16, Payload::U8U8, (0..16).map(|k| Val::Int(1i128 << k, IntTy::U16)).chain([Val::Int(0, IntTy::U16), Val::Int(3, IntTy::U16), Val::Int(65535, IntTy::U16)]).collect()));
+    }
+    // a key whose width is not a power of two: 0 and every single-bit key, so that for every bit
+    // position there are two keys that differ in exactly that bit
+    {
+        let mut vs: Vec<u32> = vec![0];
+        vs.extend((0..24).map(|k| 1u32 << k));
+        vs.push((1 << 24) - 1);
+        for (n, m) in [(1usize, 1usize), (2, 1), (1, 2)] {
+            jobs.push(join_loop_job_dom(n, m, KeyTy::Triple, Payload::U8U8, triple_keys(&vs)));
+        }
+        jobs.push(join_loop_job(2, 2, KeyTy::Triple, Payload::U8U16, 6));
     }
     if tier == Tier::Thorough {
         for (n, m) in [(6, 1), (1, 6), (6, 2), (4, 5), (7, 1), (6, 3)] {
